@@ -40,7 +40,7 @@ type ReplayInfo struct {
 }
 
 func (w *World) tryReplay(r *NamedResult, o *Obl) (string, string) {
-	if o == nil || o.Status != "sat" {
+	if o == nil || (o.Status != "sat" && !o.forceReplay) {
 		return "no-model", "the solver returned no model (unknown/timeout or quantified goal)"
 	}
 	if o.Replay == nil {
@@ -82,6 +82,25 @@ func replayableType(w *World, t types.Type, depth int) bool {
 type leaf struct {
 	path string
 	t    *Term
+}
+
+var crlfNormRe = regexp.MustCompile(`\(str\.replace_all ([A-Za-z_][A-Za-z0-9_!.]*) "\\u\{d\}\\u\{a\}" "\\u\{a\}"\)`)
+
+// absCRLF: see its use in replay.
+func absCRLF(q string) string {
+	vars := map[string]bool{}
+	for _, m := range crlfNormRe.FindAllStringSubmatch(q, -1) {
+		vars[m[1]] = true
+	}
+	if len(vars) == 0 {
+		return q
+	}
+	q = crlfNormRe.ReplaceAllString(q, "$1")
+	var extra strings.Builder
+	for v := range vars {
+		fmt.Fprintf(&extra, "(assert (not (str.contains %s \"\\u{d}\\u{a}\")))\n", v)
+	}
+	return strings.Replace(q, "(check-sat)\n", extra.String()+"(check-sat)\n", 1)
 }
 
 // ---- solver interaction ---------------------------------------------------
@@ -604,6 +623,11 @@ func (w *World) replay(o *Obl) (string, string) {
 		relaxed.Assumes = append(relaxed.Assumes, relaxQuant(a, 0)...)
 	}
 	query = w.renderQuery(relaxed, false)
+	// the search looks for an input without CRLF line ends: for such an input the lexer's normalisation
+	// str.replace_all(x, "\r\n", "\n") is the identity, which spares the solvers the heaviest string
+	// function of these queries (the input that is found is run on the real code anyway)
+	query = absCRLF(query)
+	fullQuery = absCRLF(fullQuery)
 	// 1. inputs from the model (slice lengths capped by an extra constraint)
 	inputs := map[string]interface{}{}
 	w.replaySolver = "z3-new"
@@ -748,8 +772,45 @@ func (w *World) replay(o *Obl) (string, string) {
 	fmt.Fprintf(&log, "real outputs: %s\n", truncate(string(oj2), 3000))
 	if p, ok := observed["panic"]; ok {
 		fmt.Fprintf(&log, "the real function panicked: %v\n", p)
-		if o.Kind == "safety" {
+		if o.Kind == "safety" && !o.forceReplay {
 			return "confirmed", log.String()
+		}
+		if o.Kind == "safety" && o.forceReplay {
+			// the input came from the relaxed query (the solver had no model of the full one): it only
+			// counts if it also satisfies everything the function may assume -- the full query with the
+			// inputs pinned must still have a model
+			var pinText strings.Builder
+			declared := map[string]bool{}
+			for _, in := range ri.Inputs {
+				typ := in.Typ
+				if pt, ok := typ.Underlying().(*types.Pointer); ok {
+					typ = pt.Elem()
+				}
+				gt, err := w.termOfJSON(inputs[in.Name], typ)
+				if err != nil {
+					return "not-replayable", log.String() + err.Error()
+				}
+				for _, pe := range w.pinEq(in.T, gt, typ) {
+					fv := map[string]string{}
+					collectVars(pe, fv)
+					for _, name := range sortedKeys(fv) {
+						if !declared[name] && !strings.Contains(fullQuery, "(declare-const "+name+" ") {
+							pinText.WriteString("(declare-const " + name + " " + fv[name] + ")\n")
+							declared[name] = true
+						}
+					}
+					pinText.WriteString("(assert " + pe.String() + ")\n")
+				}
+			}
+			final := strings.Replace(fullQuery, "(check-sat)\n", pinText.String()+"(check-sat)\n", 1)
+			ff := filepath.Join(dir, "final.smt2")
+			os.WriteFile(ff, []byte(final), 0644)
+			res := runSolver(solvers[0], ff, 20, context.Background())
+			fmt.Fprintf(&log, "full query with the inputs pinned: %s\n", res.status)
+			if res.status == "sat" {
+				return "confirmed", log.String()
+			}
+			return "not-confirmed", log.String()
 		}
 		return "not-confirmed", log.String()
 	}
